@@ -1,0 +1,14 @@
+//go:build verif
+
+package soyhtml
+
+// verifUnboundLookups counts the lookups of names that no scope frame binds.
+var verifUnboundLookups int
+
+// verifUnboundKeys records those names.
+var verifUnboundKeys []string
+
+func verifUnbound(key string) {
+	verifUnboundLookups++
+	verifUnboundKeys = append(verifUnboundKeys, key)
+}
